@@ -36,6 +36,9 @@ long h_alloc_refused(void);
 /* size log of granted/refused requests since last reset (for C20 end-to-end) */
 size_t h_alloc_last_request_size(void);
 bool h_alloc_is_live(const void* p);
+void h_arena_protect(int on);   /* HALLOC=arena: write-protect everything allocated so far; further requests come from a second arena */
+int h_arena_mode(void);
+void h_alloc_forbid(int on);    /* any allocator request while on is fatal */
 
 int gen_op(int argc, char** w);
 int tree_op(int argc, char** w);
